@@ -50,3 +50,13 @@ Theorem C14_accepted_names_have_one_owner : forall O, is_space O 32%N = true ->
   lwords O n1 <> [] -> lwords O n1 = lwords O n2 -> v1 = v2.
 Proof. exact accepted_names_unambiguous. Qed.
 Print Assumptions C14_accepted_names_have_one_owner.
+
+(* the rule compares aliases by their lower-cased matcher words (the repair of D11); on an alias without parentheses - the
+   quantifier of this property - that is the normalisation the property words: lower-case, strip, split on white space, join *)
+Theorem C14_alias_normalisation_on_plain_aliases : forall O,
+  (forall c, is_space O c = true -> lower_ch O c = [c]) ->
+  (forall c, is_space O c = false -> lower_ch O c <> [] /\ nospace O (lower_ch O c)) ->
+  forall a, (forall c, In c a -> is_space O c = false -> is_paren c = false) ->
+  norm_alias O a = norm_spaces O (strip O (lower O a)).
+Proof. exact norm_alias_plain. Qed.
+Print Assumptions C14_alias_normalisation_on_plain_aliases.
